@@ -4,7 +4,7 @@ from __future__ import annotations
 import ast
 
 from harness import impl
-from harness.common import rng, short
+from harness.common import quick_scale, rng, short
 from harness.gen import corpus, pyprog, xonshgen
 
 
@@ -79,7 +79,7 @@ def run(rep, tier, pool, variants=("shipped",)):
     )
     r = rng("C14")
     stmts = statement_pool(r, tier)
-    n = 1500 if tier == "quick" else 60000
+    n = 1500 * quick_scale() if tier == "quick" else 60000
     cases = []
     # every statement followed by a fixed plain probe (leaks from a construct into the following code)
     probes = ["s = 'plain'\n", "x = 1\n", "t = ' a  b '\n", "f!(k)\n", "$(ls -l)\n", "if a:\n    b\n"]
